@@ -127,6 +127,7 @@ def renderOperand : Operand → String
   | .other => "n:"
 
 def strOr (s : List Char) : String := if s.isEmpty then "~" else String.ofList s
+def dash (s : List Char) : String := if s.isEmpty then "-" else String.ofList s
 
 def renderReq (o : Opts) : String :=
   let fs := if o.filters.isEmpty then "-" else
@@ -136,7 +137,7 @@ def renderReq (o : Opts) : String :=
     | none => "-"
     | some l => let s := "+".intercalate (l.map String.ofList); if s.isEmpty then "~" else s
   let bit := fun (b : Bool) => if b then "1" else "0"
-  s!"F={fs} S={sel} W={strOr o.fwd} C={strOr o.count} L={o.limit} O={o.offset} R={joinC "+" o.order} B={bit o.bypass} X={bit o.includeTrash}{bit o.includeOldVersions}{bit o.distinct}"
+  s!"F={fs} S={sel} W={strOr o.fwd} C={strOr o.count} L={o.limit} O={o.offset} R={joinC "+" o.order} B={bit o.bypass} X={bit o.includeTrash}{bit o.includeOldVersions}{bit o.distinct} Y={dash o.whereKV}+{dash o.includeS}+{dash o.clusterId}"
 
 def renderResp : Resp → String
   | .error s => s!"E{s}"
@@ -198,10 +199,22 @@ def optsOf? (s : List Char) (filters : List Filter) : Option Opts :=
   let parts := splitC '/' s
   -- optional 8th component: include_trash, include_old_versions, distinct as three bits
   let flags? : Option (Bool × Bool × Bool) :=
-    match parts.drop 7 with
+    match (parts.drop 7).take 1 with
     | [] => some (false, false, false)
     | [[a, b, c]] => do pure ((← bitOf? a), (← bitOf? b), (← bitOf? c))
     | _ => none
+  -- optional 9th component: where+include+cluster_id ("-" = empty)
+  let undash := fun (x : List Char) => if x == ['-'] then [] else x
+  let extra? : Option (List Char × List Char × List Char) :=
+    match parts.drop 8 with
+    | [] => some ([], [], [])
+    | [y] => match splitC '+' y with
+      | [w, i, k] => some (undash w, undash i, undash k)
+      | _ => none
+    | _ => none
+  match extra? with
+  | none => none
+  | some (yW, yI, yK) =>
   match flags?, parts.take 7 with
   | none, _ => none
   | some (fT, fO, fD), [count, limit, offset, order, select, bypass, fwd] =>
@@ -216,7 +229,8 @@ def optsOf? (s : List Char) (filters : List Filter) : Option Opts :=
           select := if select == ['-'] then none else some (splitC '+' select)
           bypass := b
           fwd := if fwd == ['-'] then [] else fwd
-          includeTrash := fT, includeOldVersions := fO, distinct := fD }
+          includeTrash := fT, includeOldVersions := fO, distinct := fD
+          whereKV := yW, includeS := yI, clusterId := yK }
     | _, _ => none
   | _, _ => none
 
